@@ -4,7 +4,7 @@ import casadi as ca
 import mpmath as mp
 import z3
 
-from ..harness import Harness, Claim, HarnessError
+from ..harness import Harness, Claim, HarnessError, StructureChanged
 from ..val import Val
 from .. import val as V
 from ..enc import Ctx
@@ -155,7 +155,7 @@ class Composite(Harness):
         with MatrixCut(("Quat", "Euler")) as mc:
             Y = getattr(T, self.meth)(arg)
         if len(mc.calls) != 1:
-            raise HarnessError(f"{self.name}: expected exactly one leaf from_Matrix call, saw {len(mc.calls)}")
+            raise StructureChanged(f"{self.name}: expected exactly one leaf from_Matrix call, saw {len(mc.calls)}")
         grp, A, P = mc.calls[0]
         leaf = "Quat" if grp.n_param == 4 else "Euler"
         if leaf == "Quat" and self.target in ("Mrp", "Dcm"):
@@ -163,7 +163,7 @@ class Composite(Harness):
         elif (leaf == "Quat") == (self.target == "Quat") and (leaf == "Euler") == (self.target == "EulerB321"):
             ref = P
         else:
-            raise HarnessError(f"{self.name}: unexpected leaf {leaf} for target {self.target}")
+            raise StructureChanged(f"{self.name}: unexpected leaf {leaf} for target {self.target}")
         return ca.Function(self.name.replace(":", "_").replace(".", "_"), [x, P], [MX, A, ca.SX(Y.param), ref])
 
     def make_ctx(self):
